@@ -159,6 +159,71 @@ fn run_history(ctx: &mut Ctx, ty: &Ty, qi: usize, steps: &[Step], observe_every:
     }
 }
 
+/// directed family shared by C04 and C12 (there with the residual split observed on every history)
+fn dust_histories(ctx: &mut Ctx, ty: &Ty, nd2: usize, always_split: bool) {
+    // directed: tie + dust with the dust at a CHOSEN distance below the leading bit (every distance from just below
+    // the rounding position to 200 positions down, weighted towards 63..65 and 127..129) and the leading bit at a
+    // chosen position within its 64-bit limb (weighted towards the top and bottom bit of a limb)
+    let lsb: i32 = match ty.n { 8 => -12, 16 => -56, _ => -240 };
+    for h in 0..nd2 {
+        let maxs = ((ty.n - 2) << ty.es) as i32;
+        // leading-bit scale: position (scale - lsb) mod 64 in {63, 0, 62, 1, random}
+        let mut scale = ctx.rng.gen_range(-maxs / 2..maxs - 1);
+        let want = match h % 5 { 0 => 63, 1 => 0, 2 => 62, 3 => 1, _ => -1 };
+        if want >= 0 {
+            let cur = (scale - lsb).rem_euclid(64);
+            scale += want - cur;
+            if scale >= maxs {
+                scale -= 64;
+            }
+            if scale <= -maxs {
+                continue;
+            }
+        }
+        let big = gen::from_scale(ty.n, ty.es, scale, match h % 3 { 0 => 0, 1 => ctx.rng.gen::<u64>(), _ => u64::MAX });
+        let (_, sc, nf, _) = gen::decode(ty.n, ty.es, big);
+        if sc - (nf as i32) - 1 < -maxs {
+            continue;
+        }
+        let half = gen::from_scale(ty.n, ty.es, sc - nf as i32 - 1, 0);
+        let delta = match ctx.rng.gen_range(0..6) {
+            0 => ctx.rng.gen_range(63..=65),
+            1 => ctx.rng.gen_range(127..=129),
+            2 => nf as i32 + 2 + ctx.rng.gen_range(0..4),
+            _ => ctx.rng.gen_range(nf as i32 + 2..nf as i32 + 200),
+        };
+        let target = sc - delta;
+        if target < lsb {
+            continue;
+        }
+        // the dust as a product of two powers of two (or with random fractions one time in three)
+        let t1 = (target / 2).clamp(-maxs, maxs);
+        let t2 = target - t1;
+        if t2 < -maxs || t2 > maxs {
+            continue;
+        }
+        let fr = |ctx: &mut Ctx| if ctx.rng.gen_range(0..3) == 0 { ctx.rng.gen::<u64>() } else { 0 };
+        let (f1, f2) = (fr(ctx), fr(ctx));
+        let dust_a = gen::from_scale(ty.n, ty.es, t1, f1);
+        let dust_b = gen::from_scale(ty.n, ty.es, t2, f2);
+        ctx.sink.boundary();
+        ctx.sink.free = false;
+        let neg_all = ctx.rng.gen::<bool>();
+        let sg = |p: u64| if neg_all { gen::neg(ty.n, p) } else { p };
+        let one = 1u64 << (ty.n - 2);
+        let mut steps = vec![
+            Step { op: "q_add", sp: "pp", x: vec![sg(big), one], bs: vec![] },
+            Step { op: "q_add", sp: "p", x: vec![sg(half)], bs: vec![] },
+            Step { op: if ctx.rng.gen::<bool>() { "q_add" } else { "q_sub" }, sp: "pp", x: vec![dust_a, dust_b], bs: vec![] },
+        ];
+        if h % 3 == 0 {
+            steps.swap(0, 2);
+        }
+        run_history(ctx, ty, 0, &steps, 1, always_split || h % 7 == 0);
+        ctx.sink.free = true;
+    }
+}
+
 pub fn suite_c04(ctx: &mut Ctx) {
     crate::la::suite_dot(ctx);
     // metamorphic screening (selection only)
@@ -182,7 +247,20 @@ pub fn suite_c04(ctx: &mut Ctx) {
             if h % 8 == 7 {
                 let pos = ctx.rng.gen_range(0..steps.len());
                 let k = ctx.rng.gen_range(0..steps[pos].x.len());
-                steps[pos].x[k] = gen::nar(ty.n);
+                if !steps[pos].bs.is_empty() && ctx.rng.gen::<bool>() {
+                    // array forms: NaR among the elements, the scalar factor zero half of the time (0 * NaR is NaR)
+                    let j = ctx.rng.gen_range(0..steps[pos].bs.len());
+                    steps[pos].bs[j] = gen::nar(ty.n);
+                    if ctx.rng.gen::<bool>() {
+                        steps[pos].x[0] = 0;
+                    }
+                } else {
+                    steps[pos].x[k] = gen::nar(ty.n);
+                    // ... and the other factor zero now and then
+                    if steps[pos].x.len() == 2 && ctx.rng.gen_range(0..3) == 0 {
+                        steps[pos].x[1 - k] = 0;
+                    }
+                }
             }
             run_history(ctx, ty, 0, &steps, 4, false);
             // the same bag of terms in another order must give the same quire (order independence)
@@ -191,6 +269,33 @@ pub fn suite_c04(ctx: &mut Ctx) {
                 sh.shuffle(&mut ctx.rng);
                 run_history(ctx, ty, 1, &sh, 0, false);
             }
+            ctx.sink.free = true;
+        }
+        // directed: zero times NaR in every product spelling, on an empty and on a non-empty quire
+        for v in 0..24usize {
+            let nar = gen::nar(ty.n);
+            let one = 1u64 << (ty.n - 2);
+            let s = match v % 8 {
+                0 => Step { op: "q_add", sp: "pp", x: vec![0, nar], bs: vec![] },
+                1 => Step { op: "q_sub", sp: "pp", x: vec![nar, 0], bs: vec![] },
+                2 => Step { op: "q_add", sp: "m", x: vec![0, nar], bs: vec![] },
+                3 => Step { op: "q_add", sp: "tr", x: vec![nar, 0], bs: vec![] },
+                4 => Step { op: "q_add", sp: "arr", x: vec![0], bs: vec![one, nar] },
+                5 => Step { op: "q_sub", sp: "arr", x: vec![0], bs: vec![nar] },
+                6 => Step { op: "q_add", sp: "arr", x: vec![0], bs: vec![one, one, one, nar] },
+                _ => Step { op: "q_add", sp: "p22", x: vec![0, nar, one, one], bs: vec![] },
+            };
+            let mut steps = vec![];
+            if v >= 8 {
+                steps.push(Step { op: "q_add", sp: "pp", x: vec![one, one], bs: vec![] });
+            }
+            steps.push(s);
+            if v >= 16 {
+                steps.push(Step { op: "q_add", sp: "pp", x: vec![one, one], bs: vec![] });
+            }
+            ctx.sink.boundary();
+            ctx.sink.free = false;
+            run_history(ctx, ty, 0, &steps, 1, false);
             ctx.sink.free = true;
         }
         // directed: a sum that is an exact rounding tie in its leading bits plus "dust" far below
@@ -220,68 +325,8 @@ pub fn suite_c04(ctx: &mut Ctx) {
             run_history(ctx, ty, 0, &steps, 1, h % 5 == 0);
             ctx.sink.free = true;
         }
-        // directed: tie + dust with the dust at a CHOSEN distance below the leading bit (every distance from just below
-        // the rounding position to 200 positions down, weighted towards 63..65 and 127..129) and the leading bit at a
-        // chosen position within its 64-bit limb (weighted towards the top and bottom bit of a limb)
         let nd2 = ctx.q(1500, 30_000);
-        let lsb: i32 = match ty.n { 8 => -12, 16 => -56, _ => -240 };
-        for h in 0..nd2 {
-            let maxs = ((ty.n - 2) << ty.es) as i32;
-            // leading-bit scale: position (scale - lsb) mod 64 in {63, 0, 62, 1, random}
-            let mut scale = ctx.rng.gen_range(-maxs / 2..maxs - 1);
-            let want = match h % 5 { 0 => 63, 1 => 0, 2 => 62, 3 => 1, _ => -1 };
-            if want >= 0 {
-                let cur = (scale - lsb).rem_euclid(64);
-                scale += want - cur;
-                if scale >= maxs {
-                    scale -= 64;
-                }
-                if scale <= -maxs {
-                    continue;
-                }
-            }
-            let big = gen::from_scale(ty.n, ty.es, scale, match h % 3 { 0 => 0, 1 => ctx.rng.gen::<u64>(), _ => u64::MAX });
-            let (_, sc, nf, _) = gen::decode(ty.n, ty.es, big);
-            if sc - (nf as i32) - 1 < -maxs {
-                continue;
-            }
-            let half = gen::from_scale(ty.n, ty.es, sc - nf as i32 - 1, 0);
-            let delta = match ctx.rng.gen_range(0..6) {
-                0 => ctx.rng.gen_range(63..=65),
-                1 => ctx.rng.gen_range(127..=129),
-                2 => nf as i32 + 2 + ctx.rng.gen_range(0..4),
-                _ => ctx.rng.gen_range(nf as i32 + 2..nf as i32 + 200),
-            };
-            let target = sc - delta;
-            if target < lsb {
-                continue;
-            }
-            // the dust as a product of two powers of two (or with random fractions one time in three)
-            let t1 = (target / 2).clamp(-maxs, maxs);
-            let t2 = target - t1;
-            if t2 < -maxs || t2 > maxs {
-                continue;
-            }
-            let fr = |ctx: &mut Ctx| if ctx.rng.gen_range(0..3) == 0 { ctx.rng.gen::<u64>() } else { 0 };
-            let (f1, f2) = (fr(ctx), fr(ctx));
-            let dust_a = gen::from_scale(ty.n, ty.es, t1, f1);
-            let dust_b = gen::from_scale(ty.n, ty.es, t2, f2);
-            ctx.sink.boundary();
-            ctx.sink.free = false;
-            let neg_all = ctx.rng.gen::<bool>();
-            let sg = |p: u64| if neg_all { gen::neg(ty.n, p) } else { p };
-            let one = 1u64 << (ty.n - 2);
-            let mut steps = vec![
-                Step { op: "q_add", sp: "pp", x: vec![sg(big), one], bs: vec![] },
-                Step { op: "q_add", sp: "p", x: vec![sg(half)], bs: vec![] },
-                Step { op: if ctx.rng.gen::<bool>() { "q_add" } else { "q_sub" }, sp: "pp", x: vec![dust_a, dust_b], bs: vec![] },
-            ];
-            if h % 3 == 0 {
-                steps.swap(0, 2);
-            }
-            run_history(ctx, ty, 0, &steps, 1, h % 7 == 0);
-            ctx.sink.free = true;
-        }
+        dust_histories(ctx, ty, nd2, false);
         // directed: single products of operands with dense fractions (all ones / random with the last bit set)
         // for every pair of operand shapes (regime x exponent): every alignment of the product's lowest bit
         // against the quire's 64-bit limbs, with and without a mantissa carry; the bit image must be exact
@@ -342,6 +387,11 @@ pub fn suite_c12(ctx: &mut Ctx) {
     for ty in FIXED {
         let l2 = ctx.q(if ty.n == 8 { 19 } else { 22 }, if ty.n == 8 { 23 } else { 27 }) as u32;
         screen_quire(ctx, ty, l2);
+    }
+    // tie + dust at chosen distances and limb alignments, each observed through into_two / into_three_posits
+    for ty in FIXED {
+        let k = ctx.q(600, 12_000);
+        dust_histories(ctx, ty, k, true);
     }
     for ty in FIXED {
         let lat = gen::lattice(ty.n, ty.es, &mut ctx.rng, 2);
